@@ -39,7 +39,8 @@ SafeInt Converter<SafeInt>::getValue(ptrdiff_t val) {
 
 template<>
 SafeInt Converter<SafeInt>::negate(SafeInt const & val) {
-    return SafeInt(-(val.value() + 1));
+    // -(c + 1), written so that no intermediate value overflows for c == PTRDIFF_MAX
+    return SafeInt(-1 - val.value());
 }
 
 template<>
